@@ -16,8 +16,13 @@ package v2
 //
 // Oracle. SAFETY after every action: every admitted transaction is one of the generated valid ones, none admitted twice,
 // each node's XOR digest equals the fold of what it admitted, and (read-back, at checkpoints) nothing was removed.
-// BOUNDED LIVENESS: within R rounds of the fair suffix every node holds the union, with equal XOR and all payloads.
-// R is ours, not the code's: exceeding R but converging within 4R is only counted ("liveness:slow"), not reported.
+// BOUNDED LIVENESS: within R = expire_every*(pages+7)*hops rounds of the fair suffix every node holds the union, with equal
+// XOR and all payloads. R is ours, not the code's: exceeding R but converging within 4R is only counted ("liveness:slow"),
+// not reported. Reported: no convergence within 4R rounds, R consecutive fair rounds in which no node admitted anything
+// (several complete expiry cycles: the deterministic simulation is then in a fixpoint), or a message storm (> 1200
+// deliveries and > 2 expiry cycles without any admission).
+// Transaction references differ from run to run (fresh ECDSA keys per transaction), so a replay repeats the scenario, not
+// the exact hashes; IBLT decode success near the capacity limit may therefore differ between runs.
 
 import (
 	"context"
@@ -82,12 +87,13 @@ type c07Act struct {
 	I int    `json:"i,omitempty"`
 	C int    `json:"c,omitempty"`
 	T int    `json:"t,omitempty"`
-	Q int    `json:"q,omitempty"` // 1: choose among the messages that are not Gossip (if there are any)
+	Q int    `json:"q,omitempty"` // 1: choose among the messages that are not Gossip, 2: among list/range messages (if there are any)
 }
 
 type c07Case struct {
 	Profile     string   `json:"profile"`
 	Nodes       int      `json:"nodes"`
+	Line        bool     `json:"line,omitempty"` // 3 nodes connected as a chain 0-1-2 instead of a full mesh
 	Segs        []c07Seg `json:"segs"`
 	Late        []int    `json:"late"`         // per node: how many of its newest transactions are added only after the peers connected
 	MsgKB       int      `json:"msgkb"`        // grpc.MaxMessageSizeInBytes in KiB
@@ -110,6 +116,9 @@ func c07Gen(t *rapid.T) c07Case {
 		if rapid.IntRange(0, 2).Draw(t, "three") == 0 {
 			c.Nodes = 3
 		}
+	}
+	if c.Nodes == 3 {
+		c.Line = rapid.Bool().Draw(t, "line")
 	}
 	all := 1<<c.Nodes - 1
 	eff := []int{} // effective owner mask per segment
@@ -226,9 +235,7 @@ func c07Gen(t *rapid.T) c07Case {
 			a.I = rapid.IntRange(0, 1<<12).Draw(t, "i")
 		case "drop", "dup", "stale":
 			a.I = rapid.IntRange(0, 1<<12).Draw(t, "i")
-			if rapid.IntRange(0, 3).Draw(t, "q") > 0 {
-				a.Q = 1
-			}
+			a.Q = pick("q", 0, 1, 1, 2)
 		case "expire":
 			a.N = rapid.IntRange(0, c.Nodes-1).Draw(t, "n")
 		case "add":
@@ -254,10 +261,11 @@ type c07Tx struct {
 }
 
 type c07Msg struct {
-	seq      int
-	from, to int
-	kind     string
-	data     []byte
+	seq         int
+	from, to    int
+	kind        string
+	data        []byte
+	rangeAnswer bool // a TransactionList that answers a TransactionRangeQuery
 }
 
 // c07Conn is node `from`'s connection to node `to`: Peer() is `to`, Send puts the message on the simulated wire.
@@ -333,6 +341,7 @@ type c07Fix struct {
 	dropped, duplicated, reordered, staleInj, tampered, oversize, handlerErrs, delivered int
 	badPayloadRefs                                                                       map[hash.SHA256Hash]bool
 	kinds                                                                                map[string]int
+	rangeCids                                                                            map[string]bool
 	ghost                                                                                dag.Transaction
 	forgeN                                                                               uint32
 }
@@ -473,7 +482,7 @@ func (f *c07Fix) setup() {
 		n.conns = make([]*c07Conn, c.Nodes)
 		cl := &c07ConnList{}
 		for j := 0; j < c.Nodes; j++ {
-			if j == n.i {
+			if !f.linked(n.i, j) {
 				continue
 			}
 			n.conns[j] = &c07Conn{StubConnection: grpc.NewStubConnection(f.peers[j]), f: f, from: n.i, to: j}
@@ -509,7 +518,7 @@ func (f *c07Fix) setup() {
 	// connect: what the connection manager's observer callback does for a connected v2 stream
 	for _, n := range f.nodes {
 		for j := 0; j < c.Nodes; j++ {
-			if j != n.i {
+			if f.linked(n.i, j) {
 				n.p.connectionStateCallback(f.peers[j], transport.StateConnected, n.p)
 			}
 		}
@@ -533,6 +542,12 @@ func (f *c07Fix) send(from, to int, env *Envelope) {
 	}
 	f.seq++
 	m := c07Msg{seq: f.seq, from: from, to: to, kind: kind, data: b}
+	switch t := env.Message.(type) {
+	case *Envelope_TransactionRangeQuery:
+		f.rangeCids[string(t.TransactionRangeQuery.ConversationID)] = true
+	case *Envelope_TransactionList:
+		m.rangeAnswer = f.rangeCids[string(t.TransactionList.ConversationID)]
+	}
 	f.inflight = append(f.inflight, m)
 	if len(f.history) < 4096 {
 		f.history = append(f.history, m)
@@ -625,8 +640,20 @@ func (f *c07Fix) flush(bound int) bool {
 	return true
 }
 
+// linked tells whether nodes i and j have a connection: full mesh, or (Line) the chain 0-1-2 in which 0 and 2 only hear of
+// each other's transactions through node 1.
+func (f *c07Fix) linked(i, j int) bool {
+	if i == j {
+		return false
+	}
+	if f.c.Line && f.c.Nodes == 3 {
+		return i == 1 || j == 1
+	}
+	return true
+}
+
 func (f *c07Fix) tick(n *c07Node, peer int) {
-	if peer == n.i {
+	if !f.linked(n.i, peer) {
 		return
 	}
 	if !gossip.VerifC07Tick(n.p.gManager, f.peers[peer]) {
@@ -662,19 +689,45 @@ func (f *c07Fix) addLate(n *c07Node, k int) {
 
 // tamper alters one entry of a TransactionList in flight.
 func (f *c07Fix) tamper(a c07Act) bool {
-	if len(f.inflight) == 0 {
-		return false
+	// A forged transaction (new reference) can only get past the conversation check of a RANGE query (a list query admits
+	// requested references only), so forging kinds look for the answer to a range query first.
+	forging := a.T%5 == 0 || a.T%5 == 2 || a.T%5 == 3
+	find := func(rangeOnly bool) int {
+		for k := 0; k < len(f.inflight); k++ {
+			i := (a.I + k) % len(f.inflight)
+			if f.inflight[i].kind == "TransactionList" && (!rangeOnly || f.inflight[i].rangeAnswer) {
+				return i
+			}
+		}
+		return -1
 	}
 	at := -1
-	for k := 0; k < len(f.inflight); k++ {
-		i := (a.I + k) % len(f.inflight)
-		if f.inflight[i].kind == "TransactionList" {
-			at = i
+	for try := 0; try < 12; try++ {
+		if at = find(forging); at >= 0 {
 			break
 		}
+		if !forging || try >= 6 {
+			if at = find(false); at >= 0 {
+				break
+			}
+		}
+		// not on the wire: move the conversations on by one message (or start some) and look again
+		if len(f.inflight) == 0 {
+			f.tickAll()
+		}
+		if len(f.inflight) == 0 {
+			return false
+		}
+		f.deliver(f.take(c07Select(f.inflight, c07Act{Q: 1})))
+		f.cheapCheck()
 	}
 	if at < 0 {
-		return false
+		if at = find(false); at < 0 {
+			return false
+		}
+	}
+	if f.inflight[at].rangeAnswer {
+		f.x.Class("fault:tamper-hit-range-answer")
 	}
 	env := &Envelope{}
 	f.x.NoErr(proto.Unmarshal(f.inflight[at].data, env), "unmarshal for tamper")
@@ -732,16 +785,17 @@ func (f *c07Fix) tamper(a c07Act) bool {
 	return true
 }
 
-// c07Select picks the message an action refers to: the (I mod n)-th of the list, or with Q=1 the (I mod n)-th among the
-// messages that are not Gossip when there are any. The list must not be empty.
+// c07Select picks the message an action refers to: the (I mod n)-th of the list; with Q=1 the (I mod n)-th among the
+// messages that are not Gossip when there are any; with Q=2 among the data-phase messages (TransactionList, -ListQuery,
+// -RangeQuery) when there are any, else as Q=1. The list must not be empty.
 func c07Select(l []c07Msg, a c07Act) int {
 	if a.I < 0 {
 		a.I = -a.I
 	}
-	if a.Q == 1 {
+	for q := a.Q; q >= 1; q-- {
 		var idx []int
 		for i, m := range l {
-			if m.kind != "Gossip" {
+			if (q == 1 && m.kind != "Gossip") || (q >= 2 && strings.HasPrefix(m.kind, "TransactionList")) || (q >= 2 && m.kind == "TransactionRangeQuery") {
 				idx = append(idx, i)
 			}
 		}
@@ -757,9 +811,13 @@ func (f *c07Fix) act(a c07Act) {
 	switch a.K {
 	case "tick":
 		n := f.nodes[a.N%c.Nodes]
-		others := c.Nodes - 1
-		peer := (n.i + 1 + a.P%others) % c.Nodes
-		f.tick(n, peer)
+		var peers []int
+		for j := 0; j < c.Nodes; j++ {
+			if f.linked(n.i, j) {
+				peers = append(peers, j)
+			}
+		}
+		f.tick(n, peers[a.P%len(peers)])
 	case "tickall":
 		f.tickAll()
 	case "deliver":
@@ -941,7 +999,7 @@ func c07Run(x *h.Ctx, c c07Case) {
 	if len(c.Segs) == 0 {
 		c.Segs = []c07Seg{{N: 1, O: 1}}
 	}
-	f := &c07Fix{x: x, c: c, ctx: context.Background(), kinds: map[string]int{}}
+	f := &c07Fix{x: x, c: c, ctx: context.Background(), kinds: map[string]int{}, rangeCids: map[string]bool{}}
 	prevMax := grpc.MaxMessageSizeInBytes
 	grpc.MaxMessageSizeInBytes = c.MsgKB * 1024
 	f.msgMax = grpc.MaxMessageSizeInBytes
@@ -954,6 +1012,11 @@ func c07Run(x *h.Ctx, c c07Case) {
 
 	// classes of the DAG pair/triple
 	x.Classf("nodes:%d", c.Nodes)
+	if c.Line && c.Nodes == 3 {
+		x.Class("topology:line 0-1-2")
+	} else if c.Nodes == 3 {
+		x.Class("topology:mesh")
+	}
 	x.Class("profile:" + c.Profile)
 	pages := int(f.maxClock/dag.PageSize) + 1
 	if pages >= 3 {
@@ -1048,13 +1111,18 @@ func c07Run(x *h.Ctx, c c07Case) {
 		f.addLate(n, len(n.late))
 	}
 	f.cheapCheck()
-	R := c.ExpireEvery * (pages + 5)
+	hops := 1
+	if c.Line && c.Nodes == 3 {
+		hops = 2 // transactions of node 0 reach node 2 only after node 1 has them
+	}
+	R := c.ExpireEvery * (pages + 7) * hops // measured on the unchanged tree: at most 6 rounds (2 000 thorough scenarios)
 	rounds := -1
 	// Bounds (all ours, not the code's): 4R fair rounds in total; R consecutive fair rounds - several complete expiry cycles -
-	// in which no node admitted anything (the simulation is deterministic, so such a state repeats forever); and a number of
-	// deliveries without any admission (the unchanged tree needs a few hundred deliveries for the largest scenarios; a protocol
-	// that keeps restarting conversations inside one round would otherwise run for minutes).
-	const stallDeliveries = 3000
+	// in which no node admitted anything (the simulation is deterministic, so such a state repeats forever); and "storm":
+	// more than stallDeliveries deliveries AND more than two complete expiry cycles without any admission (a protocol that
+	// keeps restarting conversations inside one round would otherwise run for minutes; the unchanged tree needs at most a few
+	// hundred deliveries for a whole suffix). A round delivers at most roundDeliveries messages; the rest stays in flight.
+	const stallDeliveries, roundDeliveries = 1200, 400
 	admittedTotal := func() int {
 		s := 0
 		for _, n := range f.nodes {
@@ -1077,16 +1145,12 @@ func c07Run(x *h.Ctx, c c07Case) {
 			gaveUp = fmt.Sprintf("%d consecutive fair rounds without any admission (after %d rounds)", idleRounds, r-1)
 			break
 		}
-		if f.delivered-idleFrom > stallDeliveries {
+		if f.delivered-idleFrom > stallDeliveries && idleRounds > 2*c.ExpireEvery {
 			storm = true
 			gaveUp = fmt.Sprintf("%d deliveries without any admission (after %d rounds)", f.delivered-idleFrom, r-1)
 			break
 		}
-		bound := stallDeliveries - (f.delivered - idleFrom) + 1
-		if bound > 2000 {
-			bound = 2000 // what is left stays in flight for the next round
-		}
-		if !f.round(r, bound) {
+		if !f.round(r, roundDeliveries) {
 			x.Class("suffix-round-hit-delivery-bound")
 		}
 		if len(x.Violations()) > 0 {
@@ -1144,7 +1208,7 @@ func c07Run(x *h.Ctx, c c07Case) {
 	// stability: further rounds change nothing, and the final read-back (sets, payloads, digests) agrees
 	f.stepWhat = "after convergence"
 	for r := 1; r <= 2; r++ {
-		f.round(4*R+r, 2000)
+		f.round(4*R+r, roundDeliveries)
 	}
 	if !f.converged() {
 		x.Violate("safety:diverged-after-convergence", "nodes held the union and then lost it: %s", f.describe())
